@@ -13,8 +13,10 @@ as their super asset.  This is what `LanguageGraph._generate_graph` builds (it r
 `RepA s L nodes`: the association objects of `s` are the association nodes `nodes`, in creation order; the two
 `LanguageGraphAssociationField`s carry the field names and point to the asset objects named by the node.
 
-`heapOfLang L nodes` builds such a heap (asset object `i` = declaration `i`, association object `j` = node `j`);
-`repG_heapOfLang`, `repA_heapOfLang`: it is represented (non-vacuity of `RepG`/`RepA`).
+`heapOfLang L nodes` builds such a heap (asset object `i` = declaration `i`, association object `j` = node `j`).
+It is represented whenever the asset names of `L` are pairwise distinct, every named super asset is declared and
+both ends of every node are declared: `repG_heapOfLang`, `repA_heapOfLang` in `Py/TieLangGraph.lean` (non-vacuity
+of `RepG`/`RepA`); a concrete instance is checked at the end of this file.
 -/
 namespace MalVerif.Py.LSpec
 open MalVerif
@@ -101,5 +103,23 @@ def heapOfLang (L : Lang) (nodes : List AssocDecl) : GH :=
                            minimum := d.rightMin, maximum := (d.rightMax.map Int.ofNat).getD (-1) } },
     assets := List.range L.assets.length,
     associations := List.range nodes.length }
+
+/-! ## a concrete represented heap (depth-2 inheritance, two associations) -/
+
+/-- `C extends B extends A`, `D`; `AD` between `A` and `D`, `CD` between `C` and `D` -/
+def sampleLang : Lang :=
+  { assets := [{ name := "A" }, { name := "B", superAsset := some "A" }, { name := "C", superAsset := some "B" },
+               { name := "D" }] }
+def sampleNodes : List AssocDecl :=
+  [{ name := "AD", leftAsset := "A", leftField := "as", rightAsset := "D", rightField := "ds" },
+   { name := "CD", leftAsset := "D", leftField := "dd", rightAsset := "C", rightField := "cs" }]
+
+example : RepG (heapOfLang sampleLang sampleNodes) sampleLang :=
+  ⟨by decide, by decide, by decide, by decide, by decide, by decide⟩
+example : RepA (heapOfLang sampleLang sampleNodes) sampleLang sampleNodes :=
+  ⟨by decide, by decide, by decide⟩
+example : ((heapOfLang sampleLang sampleNodes).asset 2).super_assets = [1] ∧
+    ((heapOfLang sampleLang sampleNodes).asset 0).sub_assets = [1] ∧
+    ((heapOfLang sampleLang sampleNodes).assoc 1).right_field.asset = 2 := by decide
 
 end MalVerif.Py.LSpec
